@@ -513,6 +513,61 @@ func c06IncludeSpace(c *fw.Ctx) {
 		}
 		return p
 	}
+	c.Space("include-ttl", "TTL state across $INCLUDE: main = {nothing, $TTL 300, a record with TTL 9} then $INCLUDE f; f = every sequence of 1..3 lines over {record with TTL 60, record without TTL, record class-first with TTL 70, record class-first without TTL, $TTL 120}; × 3 origins × {MapFS, on-disk, includes off}; the includer's $TTL / last TTL must hold inside the included file as if its text were spliced in; non-trivial: the included file has a record that omits its TTL", true,
+		func(emit func(func(*fw.R))) {
+			heads := [][]zone.Line{nil, {zTTL("300")}, {zRec("h", "9", "", false, "A", zW("192.0.2.9"))}, {zTTL("300"), zRec("h", "9", "", false, "A", zW("192.0.2.9"))}}
+			alpha := []zone.Line{
+				zRec("a", "60", "", false, "A", zW("192.0.2.1")),
+				zRec("b", "", "", false, "A", zW("192.0.2.2")),
+				zRec("c", "70", "IN", true, "A", zW("192.0.2.3")),
+				zRec("d", "", "IN", true, "A", zW("192.0.2.4")),
+				zTTL("120"),
+			}
+			var seqs [][]zone.Line
+			var rec func(cur []zone.Line)
+			rec = func(cur []zone.Line) {
+				if len(cur) > 0 {
+					seqs = append(seqs, append([]zone.Line(nil), cur...))
+				}
+				if len(cur) == 3 {
+					return
+				}
+				for _, l := range alpha {
+					rec(append(cur, l))
+				}
+			}
+			rec(nil)
+			id := 0
+			for _, h := range heads {
+				for _, sq := range seqs {
+					h, sq := h, sq
+					myid := id
+					id++
+					emit(func(r *fw.R) {
+						for _, l := range sq {
+							if l.Kind == zone.Record && l.TTL == "" {
+								r.Nontrivial()
+							}
+						}
+						p := &zone.Program{Files: map[string][]zone.Line{"f1": sq}}
+						p.Main = append(append([]zone.Line(nil), h...), zInc("f1", false, ""))
+						fsx := newFileSet(fmt.Sprintf("incttl%d", myid), p.Files)
+						n := 0
+						for _, o := range c06Origins {
+							for inc := 0; inc <= 2; inc++ {
+								cfg := c06Cfg{origin: o, inc: inc}
+								n += c06Renderings(r, p, cfg, fsx, c06Model(cfg), nil)
+							}
+						}
+						if fsx.disk != "" {
+							os.RemoveAll(fsx.disk)
+						}
+						r.Count("texts_parsed", int64(n))
+					})
+				}
+			}
+		})
+
 	c.Space("include", "$INCLUDE chains of depth 1…8 (main → f1 → … → fD; the documented limit is 7, depth 8 is unspecified beyond the limit) where every file has a record with a relative owner and explicit TTL before and after its $INCLUDE; per level the include is written {relative path, absolute path} × {no origin argument, absolute origin, relative origin}: all 5^D combinations for D ≤ 3, uniform and one-level-differs combinations for D > 3; × {no $ORIGIN inside included files, $ORIGIN inside every odd file} × {main includes once, twice with another origin} × parser origins {\"\",\".\",\"example.\"} × FS {MapFS, on-disk directory, includes off}; non-trivial: depth ≥ 2", true,
 		func(emit func(func(*fw.R))) {
 			caseNo := 0
